@@ -152,5 +152,11 @@ func (f *c09fFront) Complete(h any, pass bool) (bool, string) {
 		return false, fmt.Sprintf("http request %d (ended with status %d while other requests were in flight through the same middleware) reported %d times on its own promise (pass %d, fail %d): the shedder's in-flight count cannot return to zero",
 			fl.n, code, n, fl.prom.pass, fl.prom.fail)
 	}
+	// a request that was answered 2xx (explicitly or by default) is a pass outcome under every
+	// reading of the statement; what 3xx..5xx other than the asked 503 count as is not judged
+	if pass && (code <= 0 || code >= 200 && code <= 299) && fl.prom.pass != 1 {
+		return false, fmt.Sprintf("http request %d: the wrapped handler returned normally and the client was answered %d, but the request was reported to the shedder as Fail: a pass is missing from the capacity window (earlier requests through this middleware ended with other statuses)",
+			fl.n, fl.rec.Code)
+	}
 	return fl.prom.pass == 1, ""
 }
